@@ -11,6 +11,7 @@ verus! {
 pub mod syscalls {
     use super::*;
 //@include prelude/syserr_opaque.rs
+//@use-missing syscalls.openat syscalls.openat_follow syscalls.readlinkat syscalls.mkdirat syscalls.mknodat syscalls.unlinkat syscalls.linkat syscalls.symlinkat syscalls.renameat syscalls.renameat2 syscalls.openat2
 }
 use syscalls::Error as SyscallError;
 //@item src/error.rs :: enum ErrorKind | sub.ErrorKind
